@@ -79,6 +79,7 @@ def py_env(build_dir, hashseed=None):
     if hashseed is not None:
         env["PYTHONHASHSEED"] = str(hashseed)
     env["PYTHONDONTWRITEBYTECODE"] = "1"
+    env["PYTHONINTMAXSTRDIGITS"] = "0"      # histories of repeated products reach ints of thousands of digits
     return env
 
 
